@@ -15,6 +15,7 @@ from typing import TYPE_CHECKING
 from exabgp.protocol.ip import IP
 from exabgp.protocol.family import Family
 from exabgp.bgp.message.update.collection import validate_announce_nlri
+from exabgp.bgp.message.update.nlri.empty import Empty
 
 from exabgp.logger import log, lazymsg
 
@@ -222,6 +223,13 @@ def announce_vpls(
             flush_events = register_flush_callbacks(peers, reactor, sync_mode)
 
             for route in routes:
+                # Validate route before announcing (early feedback)
+                error = validate_announce(route)
+                if error:
+                    self.log_failure(f'invalid vpls: {error}')
+                    await reactor.processes.answer_error(service, error)
+                    return
+
                 reactor.configuration.announce_route(peers, route)
                 peer_list = ', '.join(peers) if peers else 'all peers'
                 self.log_message(f'vpls added to {peer_list} : {route.extensive()}')
@@ -238,6 +246,10 @@ def announce_vpls(
         except IndexError:
             self.log_failure('issue parsing the vpls')
             await reactor.processes.answer_error(service)
+        except Exception as e:
+            error_msg = f'Unexpected error: {type(e).__name__}: {str(e)}'
+            self.log_exception(error_msg, e)
+            await reactor.processes.answer_error(service, error_msg)
 
     reactor.asynchronous.schedule(service, command, callback())
     return True
@@ -281,6 +293,10 @@ def withdraw_vpls(
         except IndexError:
             self.log_failure('issue parsing the vpls')
             await reactor.processes.answer_error(service)
+        except Exception as e:
+            error_msg = f'Unexpected error: {type(e).__name__}: {str(e)}'
+            self.log_exception(error_msg, e)
+            await reactor.processes.answer_error(service, error_msg)
 
     reactor.asynchronous.schedule(service, command, callback())
     return True
@@ -304,6 +320,13 @@ def announce_attributes(
             flush_events = register_flush_callbacks(peers, reactor, sync_mode)
 
             for route in routes:
+                # Validate route before announcing (early feedback); an attributes-only UPDATE has no NLRI to check
+                error = None if isinstance(route.nlri, Empty) else validate_announce(route)
+                if error:
+                    self.log_failure(f'invalid route: {error}')
+                    await reactor.processes.answer_error(service, error)
+                    return
+
                 reactor.configuration.announce_route(peers, route)
                 peer_list = ', '.join(peers) if peers else 'all peers'
                 self.log_message(f'route added to {peer_list} : {route.extensive()}')
@@ -414,6 +437,10 @@ def announce_flow(
         except IndexError:
             self.log_failure('issue parsing the flow')
             await reactor.processes.answer_error(service)
+        except Exception as e:
+            error_msg = f'Unexpected error: {type(e).__name__}: {str(e)}'
+            self.log_exception(error_msg, e)
+            await reactor.processes.answer_error(service, error_msg)
 
     reactor.asynchronous.schedule(service, command, callback())
     return True
@@ -457,6 +484,10 @@ def withdraw_flow(
         except IndexError:
             self.log_failure('issue parsing the flow')
             await reactor.processes.answer_error(service)
+        except Exception as e:
+            error_msg = f'Unexpected error: {type(e).__name__}: {str(e)}'
+            self.log_exception(error_msg, e)
+            await reactor.processes.answer_error(service, error_msg)
 
     reactor.asynchronous.schedule(service, command, callback())
     return True
